@@ -1,3 +1,300 @@
+//! Enumeration of every unit / enum / error type that derives the serde traits, plus a few values that can
+//! only be reached through deserialisation (non-default tf-idf methods inside a fitted vectoriser).
+
+use crate::rt::*;
+use linfa::traits::Transformer;
+use linfa_nn::distance::{Distance, L1Dist, L2Dist, LInfDist};
+use linfa_nn::{BallTree, CommonNearestNeighbour, KdTree, LinearSearch, NearestNeighbour};
+use ndarray::{array, Array1, Array2};
+use serde::de::DeserializeOwned;
+use serde::{Deserialize, Serialize};
 use vengine::{Obs, Tier};
-pub fn cases(_t: Tier) -> Vec<u8> { vec![] }
-pub fn check(_c: &u8, _obs: &mut Obs) {}
+
+#[derive(Debug, Clone, Serialize, Deserialize)]
+pub struct SmallCase {
+    /// position in `TABLE`
+    pub id: usize,
+    pub name: String,
+}
+
+type Entry = (&'static str, fn(&mut Obs, &'static str));
+
+fn points() -> Array2<f64> {
+    array![[0.0, 0.0], [1.0, 0.5], [-2.0, 3.0], [4.0, -1.0], [0.5, 0.5], [3.0, 3.0], [-1.0, -1.0]]
+}
+
+/// value with `PartialEq`: equality + byte stability
+fn plain<T: Serialize + DeserializeOwned + PartialEq>(obs: &mut Obs, name: &'static str, v: T) -> Vec<T> {
+    obs.class(name);
+    let mut out = vec![];
+    for (fmt, back) in roundtrip(obs, name, &v, STABLE) {
+        eq_check(obs, name, fmt, &v, &back);
+        out.push(back);
+    }
+    out
+}
+
+/// error value (no `PartialEq`): Display and Debug text must survive
+fn error<T: Serialize + DeserializeOwned + std::fmt::Display + std::fmt::Debug>(obs: &mut Obs, name: &'static str, v: T) {
+    obs.class(name);
+    for (fmt, back) in roundtrip(obs, name, &v, STABLE) {
+        must(obs, name, fmt, "display", v.to_string() == back.to_string());
+        must(obs, name, fmt, "debug", format!("{v:?}") == format!("{back:?}"));
+    }
+}
+
+fn selector<N: NearestNeighbour + Serialize + DeserializeOwned + PartialEq>(obs: &mut Obs, name: &'static str, v: N) {
+    let pts = points();
+    let ans = |n: &N| -> Vec<(usize, usize, Vec<usize>)> {
+        let idx = n.from_batch(&pts, L2Dist).expect("index");
+        let mut out = vec![];
+        for (qi, q) in pts.outer_iter().enumerate() {
+            for k in 1..=3 {
+                let mut r: Vec<usize> = idx.k_nearest(q, k).expect("k_nearest").into_iter().map(|(_, i)| i).collect();
+                r.sort_unstable();
+                out.push((qi, k, r));
+            }
+            let mut r: Vec<usize> = idx.within_range(q, 2.25).expect("within_range").into_iter().map(|(_, i)| i).collect();
+            r.sort_unstable();
+            out.push((qi, 0, r));
+        }
+        out
+    };
+    let want = observe(|| ans(&v));
+    obs.class(name);
+    for (fmt, back) in roundtrip(obs, name, &v, STABLE) {
+        eq_check(obs, name, fmt, &v, &back);
+        same_behaviour(obs, name, fmt, "queries", &want, || ans(&back), |a, b| a == b);
+    }
+}
+
+fn metric<D: Distance<f64> + Serialize + DeserializeOwned + PartialEq>(obs: &mut Obs, name: &'static str, v: D) {
+    let pts = points();
+    let ans = |d: &D| -> Vec<u64> {
+        let mut out = vec![];
+        for a in pts.outer_iter() {
+            for b in pts.outer_iter() {
+                out.push(d.distance(a, b).to_bits());
+                out.push(d.rdistance(a, b).to_bits());
+            }
+        }
+        out
+    };
+    let want = observe(|| ans(&v));
+    obs.class(name);
+    for (fmt, back) in roundtrip(obs, name, &v, STABLE) {
+        eq_check(obs, name, fmt, &v, &back);
+        same_behaviour(obs, name, fmt, "distances", &want, || ans(&back), |a, b| a == b);
+    }
+}
+
+fn link(obs: &mut Obs, name: &'static str, l: linfa_linear::Link) {
+    let v: Array1<f64> = array![0.25, 0.5, 0.75, 0.9];
+    let ans = |l: &linfa_linear::Link| {
+        let mut out: Vec<u64> = vec![];
+        for a in [l.link(&v), l.link_derivative(&v), l.inverse(&v), l.inverse_derviative(&v)] {
+            out.extend(a.iter().map(|x| x.to_bits()));
+        }
+        out
+    };
+    for back in plain(obs, name, l) {
+        obs.ensure(ans(&l) == ans(&back), &format!("{name}:link-functions"), || "restored link computes different values".into());
+    }
+}
+
+fn tfidf_method(obs: &mut Obs, name: &'static str, m: linfa_preprocessing::tf_idf_vectorization::TfIdfMethod) {
+    let ans = |m: &linfa_preprocessing::tf_idf_vectorization::TfIdfMethod| -> Vec<u64> {
+        let mut out = vec![];
+        for n in [1usize, 2, 5, 10] {
+            for df in 0..=n {
+                out.push(m.compute_idf(n, df).to_bits());
+            }
+        }
+        out
+    };
+    for back in plain(obs, name, m.clone()) {
+        obs.ensure(ans(&m) == ans(&back), &format!("{name}:compute_idf"), || "restored method computes different idf values".into());
+    }
+}
+
+/// A fitted tf-idf vectoriser whose method is not the default can only be obtained by deserialising one: build it from
+/// the JSON of a default one, then require the usual round-trip obligations of that value.
+fn fitted_tfidf_with_method(obs: &mut Obs, name: &'static str, method: &str) {
+    use linfa_preprocessing::tf_idf_vectorization::{FittedTfIdfVectorizer, TfIdfVectorizer};
+    let docs: Array1<String> = array!["one two two", "two three", "four one one one", ""].mapv(|s: &str| s.to_string());
+    let fitted = match TfIdfVectorizer::default().fit(&docs) {
+        Ok(f) => f,
+        Err(_) => return obs.skip("fit_failed"),
+    };
+    let mut j = match serde_json::to_value(&fitted) {
+        Ok(j) => j,
+        Err(_) => return obs.skip("fit_failed"),
+    };
+    match j.get_mut("method") {
+        Some(m) => *m = serde_json::Value::String(method.to_string()),
+        None => return obs.fail(format!("{name}:json-shape"), "serialised FittedTfIdfVectorizer has no `method` entry"),
+    }
+    let model: FittedTfIdfVectorizer = match serde_json::from_value(j) {
+        Ok(m) => m,
+        Err(e) => return obs.fail(format!("{name}:method-variant-rejected"), format!("method {method} does not deserialise: {e}")),
+    };
+    obs.class(name);
+    obs.nontrivial();
+    obs.ensure(format!("{:?}", model.method()) == method, &format!("{name}:method-variant"), || "deserialised a different method variant".into());
+    let view = |m: &FittedTfIdfVectorizer| -> Result<Vec<u64>, String> {
+        Ok(m.transform(&docs).map_err(|e| e.to_string())?.to_dense().iter().map(|v: &f64| v.to_bits()).collect())
+    };
+    let want = observe(|| view(&model));
+    for (fmt, back) in roundtrip(obs, name, &model, HASHED) {
+        must(obs, name, fmt, "method", model.method() == back.method());
+        must(obs, name, fmt, "vocabulary", model.vocabulary() == back.vocabulary());
+        same_behaviour(obs, name, fmt, "transform", &want, || view(&back), |a, b| a == b);
+    }
+}
+
+/// `linfa::Error::NdShape` is documented as not serialisable: every format must answer with an error (never panic, never
+/// produce bytes that decode to something else).
+fn nd_shape(obs: &mut Obs, name: &'static str) {
+    let shape_err = Array2::<f64>::zeros((2, 3)).into_shape((4, 4)).err();
+    let e = match shape_err {
+        Some(e) => linfa::Error::NdShape(e),
+        None => return obs.skip("no_shape_error"),
+    };
+    obs.class(name);
+    obs.nontrivial();
+    for fmt in Fmt::ALL {
+        match vengine::guard(|| fmt.ser(&e)) {
+            Err(p) => obs.fail(format!("{name}:serialize-panic:{}", fmt.name()), p),
+            Ok(Err(_)) => {}
+            Ok(Ok(bytes)) => {
+                // bytes were produced: they must at least not decode into a different error
+                if let Ok(back) = fmt.de::<linfa::Error>(&bytes) {
+                    obs.ensure(back.to_string() == e.to_string(), &format!("{name}:skipped-variant-decodes-as-other:{}", fmt.name()), || {
+                        format!("NdShape serialised and came back as '{back}'")
+                    });
+                }
+            }
+        }
+    }
+    // wrapped inside another error type the same must hold
+    let wrapped = linfa::composing::platt_scaling::PlattError::LinfaError(e);
+    for fmt in Fmt::ALL {
+        if let Err(p) = vengine::guard(|| fmt.ser(&wrapped)) {
+            obs.fail(format!("{name}:wrapped-serialize-panic:{}", fmt.name()), p);
+        }
+    }
+}
+
+fn table() -> Vec<Entry> {
+    use linfa::composing::platt_scaling::PlattError;
+    use linfa::Error as LErr;
+    use linfa_clustering::{Dbscan, GmmCovarType, GmmInitMethod, KMeansInit, Optics};
+    use linfa_elasticnet::ElasticNetError;
+    use linfa_ftrl::FtrlError;
+    use linfa_ica::fast_ica::GFunc;
+    use linfa_linear::{IsotonicRegression, LinearRegression, Link};
+    use linfa_preprocessing::norm_scaling::NormScaler;
+    use linfa_preprocessing::tf_idf_vectorization::TfIdfMethod;
+    use linfa_preprocessing::whitening::{Whitener, WhiteningMethod};
+    use linfa_svm::{ExitReason, SeparatingHyperplane};
+    use linfa_trees::SplitQuality;
+    vec![
+        // ---- linfa core errors
+        ("Error::Parameters", |o, n| error(o, n, LErr::Parameters("bad \u{e9} \"quoted\"".into()))),
+        ("Error::Priors", |o, n| error(o, n, LErr::Priors(String::new()))),
+        ("Error::NotConverged", |o, n| error(o, n, LErr::NotConverged("after 3 steps".into()))),
+        ("Error::NotEnoughSamples", |o, n| error(o, n, LErr::NotEnoughSamples)),
+        ("Error::MismatchedShapes", |o, n| error(o, n, LErr::MismatchedShapes(3, usize::MAX))),
+        ("Error::NdShape", |o, n| nd_shape(o, n)),
+        ("PlattError::LineSearchNotConverged", |o, n| error(o, n, PlattError::LineSearchNotConverged)),
+        ("PlattError::MaxIterReached", |o, n| error(o, n, PlattError::MaxIterReached)),
+        ("PlattError::MaxIterZero", |o, n| error(o, n, PlattError::MaxIterZero)),
+        ("PlattError::MinStepNegative", |o, n| error(o, n, PlattError::MinStepNegative(-1.5e-10))),
+        ("PlattError::SigmaNegative", |o, n| error(o, n, PlattError::SigmaNegative(f32::NEG_INFINITY))),
+        ("PlattError::LinfaError", |o, n| error(o, n, PlattError::LinfaError(LErr::MismatchedShapes(1, 2)))),
+        // ---- elastic net / ftrl errors
+        ("ElasticNetError::NotEnoughSamples", |o, n| error(o, n, ElasticNetError::NotEnoughSamples)),
+        ("ElasticNetError::IllConditioned", |o, n| error(o, n, ElasticNetError::IllConditioned)),
+        ("ElasticNetError::InvalidL1Ratio", |o, n| error(o, n, ElasticNetError::InvalidL1Ratio(1.5))),
+        ("ElasticNetError::InvalidPenalty", |o, n| error(o, n, ElasticNetError::InvalidPenalty(-0.0))),
+        ("ElasticNetError::InvalidTolerance", |o, n| error(o, n, ElasticNetError::InvalidTolerance(f32::NAN))),
+        ("ElasticNetError::IncorrectTargetShape", |o, n| error(o, n, ElasticNetError::IncorrectTargetShape)),
+        ("ElasticNetError::BaseCrate", |o, n| error(o, n, ElasticNetError::BaseCrate(LErr::NotEnoughSamples))),
+        ("FtrlError::InvalidL1Ratio", |o, n| error(o, n, FtrlError::InvalidL1Ratio(2.0))),
+        ("FtrlError::InvalidL2Ratio", |o, n| error(o, n, FtrlError::InvalidL2Ratio(-1.0))),
+        ("FtrlError::InvalidAlpha", |o, n| error(o, n, FtrlError::InvalidAlpha(f32::INFINITY))),
+        ("FtrlError::InvalidBeta", |o, n| error(o, n, FtrlError::InvalidBeta(f32::MIN_POSITIVE))),
+        ("FtrlError::InvalidNFeatures", |o, n| error(o, n, FtrlError::InvalidNFeatures(0))),
+        ("FtrlError::LinfaError", |o, n| error(o, n, FtrlError::LinfaError(LErr::Priors("p".into())))),
+        // ---- nearest-neighbour selectors and metrics
+        ("CommonNearestNeighbour::LinearSearch", |o, n| selector(o, n, CommonNearestNeighbour::LinearSearch)),
+        ("CommonNearestNeighbour::KdTree", |o, n| selector(o, n, CommonNearestNeighbour::KdTree)),
+        ("CommonNearestNeighbour::BallTree", |o, n| selector(o, n, CommonNearestNeighbour::BallTree)),
+        ("LinearSearch", |o, n| selector(o, n, LinearSearch)),
+        ("KdTree", |o, n| selector(o, n, KdTree)),
+        ("BallTree", |o, n| selector(o, n, BallTree)),
+        ("L1Dist", |o, n| metric(o, n, L1Dist)),
+        ("L2Dist", |o, n| metric(o, n, L2Dist)),
+        ("LInfDist", |o, n| metric(o, n, LInfDist)),
+        // ---- clustering markers and enums
+        ("Dbscan", |o, n| drop(plain(o, n, Dbscan))),
+        ("Optics", |o, n| drop(plain(o, n, Optics))),
+        ("GmmCovarType::Full", |o, n| drop(plain(o, n, GmmCovarType::Full))),
+        ("GmmInitMethod::KMeans", |o, n| drop(plain(o, n, GmmInitMethod::KMeans))),
+        ("GmmInitMethod::Random", |o, n| drop(plain(o, n, GmmInitMethod::Random))),
+        ("KMeansInit::Random", |o, n| drop(plain(o, n, KMeansInit::<f64>::Random))),
+        ("KMeansInit::KMeansPlusPlus", |o, n| drop(plain(o, n, KMeansInit::<f32>::KMeansPlusPlus))),
+        ("KMeansInit::KMeansPara", |o, n| drop(plain(o, n, KMeansInit::<f64>::KMeansPara))),
+        ("KMeansInit::Precomputed", |o, n| drop(plain(o, n, KMeansInit::<f64>::Precomputed(points())))),
+        // ---- linear models
+        ("Link::Identity", |o, n| link(o, n, Link::Identity)),
+        ("Link::Log", |o, n| link(o, n, Link::Log)),
+        ("Link::Logit", |o, n| link(o, n, Link::Logit)),
+        ("LinearRegression(intercept)", |o, n| drop(plain(o, n, LinearRegression::new()))),
+        ("LinearRegression(no intercept)", |o, n| drop(plain(o, n, LinearRegression::new().with_intercept(false)))),
+        ("IsotonicRegression", |o, n| drop(plain(o, n, IsotonicRegression::new()))),
+        // ---- svm, trees, ica
+        ("ExitReason::ReachedThreshold", |o, n| drop(plain(o, n, ExitReason::ReachedThreshold))),
+        ("ExitReason::ReachedIterations", |o, n| drop(plain(o, n, ExitReason::ReachedIterations))),
+        ("SeparatingHyperplane::Linear", |o, n| drop(plain(o, n, SeparatingHyperplane::<f64>::Linear(array![0.5, -1.25, 1e-300])))),
+        ("SeparatingHyperplane::WeightedCombination", |o, n| drop(plain(o, n, SeparatingHyperplane::<f32>::WeightedCombination(array![[0.5, -1.25], [3.0, 4.0]])))),
+        ("SplitQuality::Gini", |o, n| drop(plain(o, n, SplitQuality::Gini))),
+        ("SplitQuality::Entropy", |o, n| drop(plain(o, n, SplitQuality::Entropy))),
+        ("GFunc::Logcosh", |o, n| drop(plain(o, n, GFunc::Logcosh(1.25)))),
+        ("GFunc::Logcosh(inf)", |o, n| drop(plain(o, n, GFunc::Logcosh(f64::INFINITY)))),
+        ("GFunc::Exp", |o, n| drop(plain(o, n, GFunc::Exp))),
+        ("GFunc::Cube", |o, n| drop(plain(o, n, GFunc::Cube))),
+        // ---- preprocessing
+        ("WhiteningMethod::Pca", |o, n| drop(plain(o, n, WhiteningMethod::Pca))),
+        ("WhiteningMethod::Zca", |o, n| drop(plain(o, n, WhiteningMethod::Zca))),
+        ("WhiteningMethod::Cholesky", |o, n| drop(plain(o, n, WhiteningMethod::Cholesky))),
+        ("Whitener::method", |o, n| drop(plain(o, n, Whitener::pca().method(WhiteningMethod::Cholesky)))),
+        ("NormScaler::l1", |o, n| {
+            let x = points();
+            for back in plain(o, n, NormScaler::l1()) {
+                o.ensure(same_arr(&NormScaler::l1().transform(x.clone()), &back.transform(x.clone())), "NormScaler::l1:transform", || "different transform".into());
+            }
+        }),
+        ("TfIdfMethod::Smooth", |o, n| tfidf_method(o, n, TfIdfMethod::Smooth)),
+        ("TfIdfMethod::NonSmooth", |o, n| tfidf_method(o, n, TfIdfMethod::NonSmooth)),
+        ("TfIdfMethod::Textbook", |o, n| tfidf_method(o, n, TfIdfMethod::Textbook)),
+        ("FittedTfIdfVectorizer(NonSmooth)", |o, n| fitted_tfidf_with_method(o, n, "NonSmooth")),
+        ("FittedTfIdfVectorizer(Textbook)", |o, n| fitted_tfidf_with_method(o, n, "Textbook")),
+    ]
+}
+
+pub fn cases(_t: Tier) -> Vec<SmallCase> {
+    table().iter().enumerate().map(|(id, (name, _))| SmallCase { id, name: name.to_string() }).collect()
+}
+
+pub fn check(c: &SmallCase, obs: &mut Obs) {
+    let t = table();
+    match t.get(c.id) {
+        Some((name, f)) if *name == c.name => f(obs, name),
+        // a stored case from an older table: look the entry up by name
+        _ => match t.iter().find(|(n, _)| *n == c.name) {
+            Some((name, f)) => f(obs, name),
+            None => obs.skip("unknown_small_type"),
+        },
+    }
+}
